@@ -5,7 +5,8 @@ from rules import regex_rules
 
 def run(m, tier):
     results = [rr.rule_quote_state(m, "C04.R1"), rr.rule_semicolon(m, "C04.R2"), rr.rule_splitquote(m, "C04.R4"),
-               regex_rules.label_name_rules(m, "C04.R5"), rr.rule_queue(m, "C04.R6"), rr.rule_literal_folding(m, "C04.R7")]
+               regex_rules.label_name_rules(m, "C04.R5"), rr.rule_queue(m, "C04.R6"), rr.rule_literal_folding(m, "C04.R7"),
+               rr.rule_continuation(m, "C04.R8")]
     from rules import taint_rules
     results += taint_rules.c04_rules(m)
     expl = ("Decides structural necessary conditions of layout independence: the quote state returned by handle_inline_comment is "
@@ -13,5 +14,5 @@ def run(m, tier):
             "split on the tokenised line only, each part has the replace map undone and label then construct name re-extracted; "
             "splitquote types every quoted region as String and case-folds only unquoted text; the label / construct-name regexes "
             "separate `10 outer: stmt` correctly; the parts of a ';' line keep their order in the queue; every keyword comparison in "
-            "the 350 matchers is case-blind. Does NOT decide tree equality over the layout space.")
+            "the 350 matchers is case-blind; one iteration of the free-form continuation loop decided as a table (leading/trailing '&', '&' inside literals). Does NOT decide tree equality over the layout space.")
     return results, expl
